@@ -94,7 +94,18 @@ CHECKS['C06'] = dict(
         'kill/restart of every filter of a real pipeline at random scheduling steps with restart delays around the connection timeout explored in pipeline mode (flow resumes, ordering kept).',
    note=PROTO_NOTE + ' Handshake convergence / edge progress / deadlock freedom over the network model are not proved (partial).',
    technique='Coq proof (local healing lemmas) + differential correspondence + pipeline-mode fault exploration', ref='§5, §6 C06')
-NOT_YET = {'C13': 'model, theorems and correspondence are being built (Log/RollLog.v); not claimed until its check runs', 'C14': 'model, theorems and correspondence are being built (Log/Head.v); not claimed until its check runs'}
+CHECKS['C13'] = dict(
+   text='Theorems over the Gallina model of RollLog on a model file system, for every operation list: a roll-over never opens an existing name, the size budget holds after every write and the newest '
+        'file is never pruned, reads return whole records; exactly-once-in-order under monotone file names (partial, with refutation witnesses for the excluded corners); compared step by step with the real '
+        'RollLog on a real temporary directory (all four modes).',
+   note=NOTE_COMMON + 'Operation-level atomicity; races of a separate-process reader inside one call and unflushed records are outside. Known findings: file stamped 0, lower name after external deletion.',
+   technique='Coq proof (invariants by induction over op lists on a model file system) + differential correspondence', ref='§6 C13')
+CHECKS['C14'] = dict(
+   text='Theorems for every history and every crash point of every save (create temp / write / close / rename): the head file is absent or a valid old/new position and restart succeeds; no record on disk is '
+        'skipped across restart cycles (partial: monotone names); compared with the real RollLog with open/rename shimmed to crash at each file-system step.',
+   note=NOTE_COMMON + 'Process-crash model (atomic rename); power-loss reordering outside. Same two open findings as C13.',
+   technique='Coq proof (crash-point enumeration inside the model, invariants over histories) + differential correspondence with fault injection', ref='§6 C14')
+NOT_YET = {'C13x': 'model, theorems and correspondence are being built (Log/RollLog.v); not claimed until its check runs', 'C14': 'model, theorems and correspondence are being built (Log/Head.v); not claimed until its check runs'}
 def main():
     props = [json.loads(l) for l in open(os.path.join(VERIF, 'properties.jsonl'))]
     checks, na = [], []
